@@ -209,6 +209,7 @@ func gen(r *vh.Rand, tier string, n int, emit func(vh.Case)) {
 			npeers, steps = 1, 330
 		}
 		long := steps == 330
+		early, eo := r.Chance(2, 3), r.Intn(2)
 		for k := 0; k < steps; k++ {
 			var op string
 			for try := 0; try < 12; try++ {
@@ -230,36 +231,39 @@ func gen(r *vh.Rand, tier string, n int, emit func(vh.Case)) {
 					w = []int{0, 12, 40, 40, 40}[k]
 				}
 				switch {
-				case w < 8:
+				case w < 7:
 					op = fmt.Sprintf("add %d", p)
-				case w < 12:
+				case w < 10:
 					op = fmt.Sprintf("remove %d %d", p, r.Intn(2))
-				case w < 18:
+				case w < 15:
 					op = "start"
-				case w < 21:
+				case w < 17:
 					pj := -1
 					if r.Chance(2, 3) {
 						pj = j
 					}
 					op = fmt.Sprintf("stop %d", pj)
-				case w < 27:
+				case w < 22:
 					op = "resume"
-				case w < 36:
+				case w < 32:
 					op = fmt.Sprintf("conn %d %d", p, r.Intn(2))
-				case w < 40:
+				case w < 36:
 					op = fmt.Sprintf("notify %d conn", p)
-				case w < 50:
+				case w < 46:
 					op = fmt.Sprintf("notify %d disc", p)
-				case w < 62:
+				case w < 58:
 					op = fmt.Sprintf("run %d start", j)
-				case w < 68:
+				case w < 64:
 					op = fmt.Sprintf("run %d stop", j)
-				case w < 80:
+				case w < 78:
 					op = fmt.Sprintf("fire %d", j)
-				case w < 90:
+				case w < 89:
 					op = fmt.Sprintf("dial %d", j)
 				default:
 					op = fmt.Sprintf("ret %d %s", j, vh.Pick(r, []string{"ok", "fail", "fail"}))
+				}
+				if !long && k < 2 && early {
+					op = []string{fmt.Sprintf("add %d", p), "start"}[(k+eo)%2]
 				}
 				cp := *m // try on a copy: keep only enabled events most of the time
 				cp.hs = nil
